@@ -39,8 +39,13 @@ extern "C" void c07_run()
   ctx._controlstack._stack.reserve(4); ctx._execstack._stack.reserve(6);
   static Step s0, s1, s1b, s2; s0.id = 0; s1.id = 1; s1b.id = 2; s2.id = 3;
   s1._next = &s1b;                                  /* a statement chain inside the list */
-  s0.action = in_int(0); s1.action = in_int(1); s1b.action = in_int(2); s2.action = in_int(3);
-  verif_assume(s0.action >= 0 && s0.action <= 4 && s1.action >= 0 && s1.action <= 4 && s1b.action >= 0 && s1b.action <= 4 && s2.action >= 0 && s2.action <= 4);
+  /* what each step does is the instance parameter VX_ACTS (one digit per step s0 s1 s1b s2: 0 nothing 1 break 2 continue 3 return
+     4 raise): with symbolic actions the sizes of the control stack and of the pool depend on solver variables and the SAT back end
+     runs out of memory (15 GB). Symbolic: whether a return is already pending at entry. */
+#ifndef VX_ACTS
+#define VX_ACTS "0040"
+#endif
+  s0.action = VX_ACTS[0] - '0'; s1.action = VX_ACTS[1] - '0'; s1b.action = VX_ACTS[2] - '0'; s2.action = VX_ACTS[3] - '0';
   static std::list<const Statement*> prog; prog.push_back(&s0); prog.push_back(&s1); prog.push_back(&s2);
   /* execution level of the running block: 2 enclosing blocks */
   static Step blk1, blk2; ctx.execBegin(&blk1); ctx.execBegin(&blk2);
@@ -54,6 +59,7 @@ extern "C" void c07_run()
   outer._level = lo; inner._level = li;
   ctx.stackControl(&outer, nullptr); ctx.stackControl(&inner, nullptr);
   bool pending_return = in_bool(0); if (pending_return) ctx.returnCondition(true);
+  ctx.allocate(Value(Integer(7))); ctx._temporary_storage.clear();      /* the pool of temporaries has one slot (its size stays concrete) */
   bool thrown = false; int code = -1;
   try { Executable::run(ctx, prog); }
   catch (RuntimeError& re) { thrown = true; code = re.no; }
